@@ -10,4 +10,11 @@ for m in spec/*.tla; do
   if grep -q "error" /tmp/sany_$n.log; then cat /tmp/sany_$n.log; echo "SANY errors in $n"; exit 1; fi
   rm -f /tmp/sany_$n.log
 done
+# proof modules (checked by tlapm inside the checks that use them): they parse against the proof system's standard modules
+for m in spec/proofs/*.tla; do
+  n=$(basename "$m" .tla)
+  (cd spec/proofs && java -DTLA-Library=/verif/spec:/opt/veriftools/tlapm/lib/tlapm/stdlib -cp /opt/veriftools/tla/tla2tools.jar:/opt/veriftools/tla/CommunityModules-deps.jar tla2sany.SANY "$n.tla" >/tmp/sany_$n.log 2>&1) || { cat /tmp/sany_$n.log; echo "SANY failed on $n"; exit 1; }
+  rm -f /tmp/sany_$n.log
+done
+command -v tlapm >/dev/null || { echo "tlapm missing"; exit 1; }
 echo "setup ok"
